@@ -489,6 +489,10 @@ func (in *Interp) lockOf(p *value) *lockState {
 	l := in.locks[p]
 	if l == nil {
 		l = &lockState{id: len(in.locks), readers: map[*goroutine]int{}}
+		l.name = fmt.Sprintf("mutex%d", l.id)
+		if li := in.locs[p]; li != nil {
+			l.name = li.desc
+		}
 		in.locks[p] = l
 	}
 	return l
